@@ -1204,6 +1204,19 @@ func c04KnownFindings(r *core.Run) {
 			}
 		}
 	}
+	{
+		m := core.NewMachine(core.VMOpts{Optimize: true})
+		src := "var v any = byte(1); v = 300; v"
+		o := m.Eval(nil, src)
+		r.Eval(1)
+		if !(len(o.Rets) == 1 && o.Rets[0] == "300") {
+			if r.Findings().Open("K09") {
+				r.KnownFinding("K09")
+			} else {
+				r.Violate(core.Violation{Check: "c04-sentinel", What: "a constant assigned to a variable declared any takes the type of the value held before", Case: src, Expected: "300 (int32)", Observed: o})
+			}
+		}
+	}
 	m := core.NewMachine(core.VMOpts{Optimize: true})
 	o := m.Eval(nil, "c := 31; x := 1 << c >> 2; x")
 	r.Eval(1)
